@@ -110,6 +110,7 @@ class Scheduler:
         self.state_hashes = set()
         self.last_run = {}
         self.step_no_of_park = {}
+        self.sleeping = {}
 
     # -- process bookkeeping ---------------------------------------------------
     def lid_for_new(self, pid, ppid):
@@ -265,6 +266,7 @@ class Scheduler:
             if st is not None:
                 info[pid] = st
         live_children = {}
+        sleepers = set()
         for pid, (state, ppid) in info.items():
             if state not in ("Z", "X"):
                 live_children[ppid] = live_children.get(ppid, 0) + 1
@@ -286,7 +288,21 @@ class Scheduler:
                 return False       # waiting although every child is gone: it is about to continue
             if pid in self.procs and (sc in SYS_READ or sc in SYS_POLL or sc in SYS_PAUSE or sc in SYS_WRITE):
                 continue
+            if pid in self.procs and sc in SYS_SLEEP:
+                # a hooked process sleeping outside any gate: SQLite's busy handler waiting for a database lock
+                # whose holder is parked.  After 150 ms of uninterrupted sleeping it counts as blocked (the holder
+                # must be allowed to run); it wakes up by itself and either proceeds or sleeps again.
+                t0 = self.sleeping.setdefault(pid, time.monotonic())
+                sleepers.add(pid)
+                if time.monotonic() - t0 >= 0.15:
+                    continue
+                return False
             return False
+        for pid in list(self.sleeping):
+            if pid not in sleepers:
+                del self.sleeping[pid]
+        if sleepers:
+            self.flags["db_busy_waits"] = self.flags.get("db_busy_waits", 0) + 1
         return True
 
     def wait_quiescent(self):
@@ -426,7 +442,22 @@ class Scheduler:
                 live = [pid for pid in self.live_pids() if (proc_stat(pid) or ("Z", 0))[0] not in ("Z", "X")]
                 if not live:
                     break
+            if not choices and self.sleeping:
+                # everything else is blocked and a process busy-waits for the database: give it real time
+                t_end = time.monotonic() + 8.0
+                while not choices and self.sleeping and time.monotonic() < t_end:
+                    time.sleep(0.05)
+                    self.wait_quiescent()
+                    choices = self.enabled_choices()
+                    if not [pid for pid in self.live_pids() if (proc_stat(pid) or ("Z", 0))[0] not in ("Z", "X")]:
+                        break
+                if not choices and self.sleeping:
+                    verdict = "db-busy-stall"
+                    self.flags["db-busy-stall"] = self.describe_tree()
+                    break
             if not choices:
+                if not [pid for pid in self.live_pids() if (proc_stat(pid) or ("Z", 0))[0] not in ("Z", "X")]:
+                    break
                 verdict = "deadlock"
                 self.flags["deadlock"] = self.describe_tree()
                 break
